@@ -307,7 +307,7 @@ func genWorld(r *wire.Rng, out *wire.Out) (clusters []string, cfg string) {
 		out.Line("cluster", cl)
 		for _, ns := range storeNs {
 			for _, name := range storeNames {
-				if !r.Chance(3, 5) {
+				if !r.Chance(4, 5) {
 					continue
 				}
 				t := func(field string) string { return wire.Enc(tag("S", cl, ns, name, field)) }
@@ -350,7 +350,7 @@ func genWorld(r *wire.Rng, out *wire.Out) (clusters []string, cfg string) {
 				}
 			}
 			for _, s := range sdsSAs {
-				if r.Chance(1, 2) {
+				if r.Chance(2, 3) {
 					out.Line("allow", cl, s, ns)
 				}
 			}
@@ -390,6 +390,37 @@ type genProxy struct {
 	claimedNs  string
 }
 
+// drawName picks a requested name relative to a proxy: mostly names the proxy is plausibly entitled to
+// (implicit / own-namespace kubernetes://, its verified references, config maps), sometimes other
+// namespaces' names and hostile strings.
+func drawName(r *wire.Rng, p genProxy, universe, gwNames []string) string {
+	n := wire.Pick(r, storeNames)
+	switch r.Intn(20) {
+	case 0, 1, 2, 3:
+		return "kubernetes://" + n
+	case 4, 5, 6:
+		return "kubernetes://" + p.ns + "/" + n
+	case 7:
+		return "kubernetes://" + n + "-cacert"
+	case 8:
+		return "kubernetes://" + p.ns + "/" + n + "-cacert"
+	case 9, 10, 11:
+		if refs := wire.DecList(p.refs); p.refs != "nil" && len(refs) > 0 {
+			return wire.Pick(r, refs)
+		}
+		return wire.Pick(r, gwNames)
+	case 12:
+		return "kubernetes-gateway://" + wire.Pick(r, storeNs) + "/" + n
+	case 13, 14:
+		return "configmap://" + wire.Pick(r, storeNs) + "/" + wire.Pick(r, []string{"cm", "cm-cacert", "cm2", "cm2-cacert"})
+	case 15, 16, 17:
+		return "kubernetes://" + wire.Pick(r, storeNs) + "/" + n
+	case 18:
+		return genName(r)
+	}
+	return wire.Pick(r, universe)
+}
+
 func genSDS(seed uint64, n int, outp string) {
 	out := wire.Create(outp)
 	defer out.Close()
@@ -404,47 +435,46 @@ func genSDS(seed uint64, n int, outp string) {
 	for c := 0; c < n; c++ {
 		r := root.Fork()
 		out.Line("case", strconv.Itoa(c), "sds")
-		genWorld(r, out)
+		clusters, _ := genWorld(r, out)
 		// a small population of differently privileged proxies
 		var proxies []genProxy
 		for i, k := 0, 2+r.Intn(3); i < k; i++ {
-			p := genProxy{hasVid: r.Chance(7, 8), td: "cluster.local", ns: wire.Pick(r, storeNs), sa: wire.Pick(r, sdsSAs),
-				cluster: wire.Pick(r, []string{"c1", "c1", "c2", "c2", "cX"}), ptype: wire.Pick(r, []string{"router", "sidecar", "router"})}
-			if r.Chance(1, 12) {
+			p := genProxy{hasVid: r.Chance(9, 10), td: "cluster.local", ns: wire.Pick(r, storeNs), sa: wire.Pick(r, sdsSAs),
+				cluster: wire.Pick(r, clusters), ptype: wire.Pick(r, []string{"router", "sidecar", "router"})}
+			if r.Chance(1, 10) {
+				p.cluster = wire.Pick(r, []string{"c1", "c2", "cX"})
+			}
+			if r.Chance(1, 15) {
 				p.ns = wire.Pick(r, []string{"", "ns3", "NS1"})
 			}
 			p.claimedNs = p.ns
 			if r.Chance(1, 3) {
 				p.claimedNs = wire.Pick(r, storeNs) // claimed namespace differs from the verified one
 			}
-			switch r.Intn(4) {
+			switch r.Intn(5) {
 			case 0:
 				p.refs = "nil"
 			case 1:
 				p.refs = "-"
 			default:
-				p.refs = wire.EncList(wire.Subset(r, gwNames, 1, 6))
+				p.refs = wire.EncList(wire.Subset(r, gwNames, 1, 8))
 			}
 			proxies = append(proxies, p)
 		}
 		// a working set of names that several proxies ask for, so that cache entries are shared
-		working := make([]string, 0, 8)
-		for i := 0; i < 8; i++ {
-			if r.Chance(1, 8) {
-				working = append(working, genName(r))
-			} else {
-				working = append(working, wire.Pick(r, universe))
-			}
+		working := make([]string, 0, 10)
+		for i := 0; i < 10; i++ {
+			working = append(working, drawName(r, wire.Pick(r, proxies), universe, gwNames))
 		}
-		for i, k := 0, 3+r.Intn(8); i < k; i++ {
-			if r.Chance(1, 15) {
+		for i, k := 0, 4+r.Intn(10); i < k; i++ {
+			if r.Chance(1, 20) {
 				out.Line("clear")
 				continue
 			}
 			p := wire.Pick(r, proxies)
-			names := wire.Subset(r, working, 1, 2)
-			if r.Chance(1, 6) {
-				names = append(names, wire.Pick(r, universe))
+			names := wire.Subset(r, working, 1, 3)
+			for j, m := 0, r.Intn(3); j < m; j++ {
+				names = append(names, drawName(r, p, universe, gwNames))
 			}
 			seen := map[string]bool{}
 			var uniq []string
@@ -458,10 +488,10 @@ func genSDS(seed uint64, n int, outp string) {
 			switch r.Intn(12) {
 			case 0:
 				req = "nil"
-			case 1, 2, 3:
+			case 1, 2:
 				req = "0"
 				var ks, ns2, nss []string
-				for j, m := 0, r.Intn(4); j < m; j++ {
+				for j, m := 0, 1+r.Intn(4); j < m; j++ {
 					ks = append(ks, wire.Pick(r, []string{"S", "S", "M", "O"}))
 					nm := wire.Pick(r, append(append([]string{}, storeNames...), "cm", "cm-cacert", "cm2", "b-cacert", "gw-cacert"))
 					ns2 = append(ns2, nm)
